@@ -106,3 +106,7 @@ impl ExponentialBackOff {
         }
     }
 }
+
+#[cfg(kani)]
+#[path = "/verif/harness/app_retry.rs"]
+pub(crate) mod verif_harness;
